@@ -31,8 +31,8 @@ RULE = ('grids: (M, L, nlon, nlat) from a table with M 1..8, L = M..M+3, nlon >=
 
 # (M, L, nlon, nlat)
 SMALL = [(1, 1, 1, 1), (1, 2, 2, 2), (2, 2, 3, 2), (2, 3, 5, 3), (3, 4, 8, 4), (3, 6, 7, 5), (4, 5, 12, 6),
-         (5, 6, 16, 8), (4, 7, 9, 7)]
-LARGE = [(8, 9, 24, 12), (6, 9, 20, 10), (11, 12, 32, 16), (16, 17, 48, 24), (22, 23, 64, 32)]
+         (5, 6, 16, 8), (4, 7, 9, 7), (3, 4, 4, 4), (5, 6, 8, 6)]
+LARGE = [(9, 10, 16, 12), (8, 9, 24, 12), (6, 9, 20, 10), (11, 12, 32, 16), (16, 17, 48, 24), (22, 23, 64, 32)]
 SPACINGS = ['gauss', 'equiangular', 'equiangular_with_poles']
 
 
@@ -141,6 +141,9 @@ def pair_stream(ctx, sh, jax, n, table, with_mesh=True):
   rng = ctx.rng
   fixed = [
       dict(dims=(1, 1, 1, 1)), dict(dims=(1, 2, 2, 2), base=3), dict(dims=(2, 2, 3, 2), base=2, stacked=True),
+      # Nyquist corner: an even number of longitudes with M - 1 == N / 2 (the top cosine column is the alternating vector,
+      # the top sine column vanishes): both implementations must still agree under the re-indexing
+      dict(dims=(3, 4, 4, 4), base=2, stacked=False), dict(dims=(5, 6, 8, 6), base=None, stacked=True, radius=2.5),
       dict(dims=(2, 3, 5, 3), base=4, stacked=False), dict(dims=(3, 4, 8, 4), base=8, stacked=True, radius=2.5),
       dict(dims=(5, 6, 16, 8), base=8, stacked=False, spacing='equiangular', offset=0.3),
       dict(dims=(4, 5, 12, 6), base=3, stacked=True, reverse=True, precision='highest',
